@@ -28,14 +28,16 @@ OpsObj ==
   {O("obj.set", a, 0, 1) : a \in 0..1} \cup
   {O("obj.del", a, 0, 0) : a \in 0..1} \cup
   {O("obj.setobj", a, 0, v) : a \in 0..1, v \in {1, 2}} \cup
-  {O("obj.setin", a, 0, v) : a \in 0..1, v \in {0, 1}}
+  {O("obj.setin", a, 0, v) : a \in 0..1, v \in {0, 1}} \cup
+  {O("obj.sets", a, 0, 1) : a \in 0..1}      \* a string value (it carries a closing parenthesis: YSON export/import)
 
 \* nested containers: replace / delete a container while a peer edits inside it
 OpsNest ==
   {O("obj.setobj", a, 0, v) : a \in 0..1, v \in 0..3} \cup
   {O("obj.setin", a, 0, v) : a \in 0..1, v \in 0..1} \cup
   {O("obj.del", a, 0, 0) : a \in 0..1} \cup
-  {O("obj.set", a, 0, 1) : a \in 0..1}
+  {O("obj.set", a, 0, 1) : a \in 0..1} \cup
+  {O("obj.sets", a, 0, 1) : a \in 0..1}
 
 OpsTxt ==
   {O("txt.edit", a, b, v) : a \in {0, 1, 3}, b \in {0, 1, 2}, v \in {0, 2}} \cup
